@@ -130,6 +130,9 @@ func genInst(r *rand.Rand, cfg *GenCfg, name string, docNum int, seqNo *int) Fie
 	fi.Len = sum
 	if !cfg.StatsMode {
 		fi.Len += r.Intn(3)
+		if r.Intn(8) == 0 {
+			fi.Len = 0 // the length a field reports is the caller's: zero although it carries terms (norm of length 0)
+		}
 	}
 	return fi
 }
